@@ -8,6 +8,15 @@ pub use message::{AddressType, MessageType};
 pub use protocol::{Control, Wire, WireReader, WireSession, WireWriter};
 use radicle::node::UserAgent;
 
+/// Verification hook H1: expose the framing layer to the external simulation harness.
+#[cfg(feature = "verif")]
+pub mod verif {
+    pub use super::frame::{Control, Frame, FrameData, StreamKind, Version};
+    pub use super::frame::{StreamId, PROTOCOL_VERSION_STRING};
+    pub use super::protocol::MAX_INBOX_SIZE;
+    pub use super::varint::{payload, BoundsExceeded, VarInt};
+}
+
 use std::collections::BTreeMap;
 use std::convert::TryFrom;
 use std::ops::Deref;
